@@ -1,8 +1,9 @@
 """C03 -- accepted rows are flushed exactly once into their hour partition (DESIGN section 5, C03).
 
 (M) TLC exhausts specs/ingest/Ingest.tla without WAL/faults/overflow (writers x schema change x
-    size/age/explicit/close flush): as written (Accounted, NoDup, every loss is a queued task
-    abandoned by Close) and with the hypothetical repair CloseDrains=TRUE (NoLoss, NoDup).
+    size/age/explicit/close flush): TypeOK, Accounted, NoDup, NoLoss hold for the code as it is
+    (Close flushes what is still queued, d59f85d); the pre-repair variant (CloseDrains=FALSE) is a
+    negative control that TLC must reject.
 (G) the same module in Coarse mode emits command scripts; the Go driver forces them on the real
     ArrowBuffer with a blocking storage proxy (lock released mid-flush, Close with a non-empty
     queue); plus concurrent stress runs (1-8 writers, random thresholds, multi-hour and pre-1970
@@ -11,6 +12,7 @@
     against IngestProp.
 """
 import ingestlib as L
+from vlib import InfraError
 
 LEVEL = "model_checking"
 
@@ -21,8 +23,14 @@ ACTIONS = ("WStart", "WLock", "WEnq", "WSel", "WkTake", "WkExit", "IOStep", "FAS
 def run(ctx):
     q = ctx.quick()
     mcs = [L.model_check(ctx, "MC_c03_small.cfg" if q else "MC_c03_large.cfg", ACTIONS, True,
-                         ["TypeOK", "Accounted", "NoDup", "LossExplained", "C03LossOnlyAbandoned"]),
-           L.model_check(ctx, "MC_c03_fixed.cfg", ACTIONS, False, ["TypeOK", "Accounted", "NoDup", "NoLoss"])]
+                         ["TypeOK", "Accounted", "NoDup", "NoLoss"])]
+    # negative control: the code before d59f85d (Close did not flush queued tasks) must be rejected
+    neg = ctx.tlc("ingest", "Ingest", "NEG_c03_aswritten.cfg", timeout=900, workers=6, heap="5g", allow_violation=True)
+    if neg.violated != "NoLoss":
+        raise InfraError("negative control NEG_c03_aswritten.cfg: TLC did not reject NoLoss (%s)" % neg.violated)
+    ctx._states -= neg.distinct
+    ctx._transitions -= neg.generated
+    mcs.append({"cfg": "NEG_c03_aswritten.cfg", "negative_control": "NoLoss violated as expected", "distinct_until_violation": neg.distinct})
     ctx.note("tlc_model_check", mcs)
     consts = {"MaxBuf": 3, "QCap": 4, "NWorkers": 1, "RPB": 2, "NHours": 1, "WalOn": False, "C07": False}
     scripts, ginfo = L.generate(ctx, "Gen_c03_small.cfg", consts)
@@ -34,6 +42,7 @@ def run(ctx):
     allscripts = chosen + more
     for i, s in enumerate(allscripts):
         s["index"] = i
+        s["consts"] = dict(s["consts"], Variant=i % 3)   # schema/hour pool slice, see mkBatch/realSig in the driver
     binp = L.build_driver(ctx)
     tp, results = L.run_driver(ctx, binp, allscripts, 150 if q else 2500, False, "c03")
     info = L.judge(ctx, "C03", tp, results, allscripts, "exact")
